@@ -719,6 +719,48 @@ fn corrupt(rng: &mut Rng, t: &mut Table, ctx: &mut Ctx) {
 struct Underlying {
     paths: Vec<String>,
     models: Vec<SmartcoreSpeedGradeModel>,
+    /// the interpolation configurations of the bundled vehicles (python resources, osm_default_energy.toml)
+    bundled: Vec<SgSpec>,
+}
+
+const BUNDLED_CONFIG: &str = "/repo/python/nrel/routee/compass/resources/osm_default_energy.toml";
+const BUNDLED_DIR: &str = "/repo/python/nrel/routee/compass/resources";
+
+/// the `[[traversal.vehicles]]` entries that use `model_type.interpolate`, read with a line scanner
+/// (key = value pairs of the vehicle table and of its interpolate sub-table)
+fn bundled_vehicles() -> Vec<std::collections::BTreeMap<String, String>> {
+    let Ok(text) = std::fs::read_to_string(BUNDLED_CONFIG) else { return vec![] };
+    let mut out = vec![];
+    let mut cur: Option<std::collections::BTreeMap<String, String>> = None;
+    let mut in_vehicle = false;
+    for line in text.lines() {
+        let l = line.trim();
+        if l.ends_with("model_type.interpolate]") {
+            if let Some(c) = cur.as_mut() {
+                c.insert("interpolate".to_string(), "1".to_string());
+            }
+        } else if l.starts_with("[[traversal.vehicles]]") || l.starts_with("[traversal.vehicles.") {
+            // a vehicle, or the charge_depleting / charge_sustaining model of a plug-in hybrid
+            if let Some(c) = cur.take() {
+                out.push(c);
+            }
+            cur = Some(Default::default());
+            in_vehicle = true;
+        } else if l.starts_with('[') {
+            if let Some(c) = cur.take() {
+                out.push(c);
+            }
+            in_vehicle = false;
+        } else if in_vehicle {
+            if let (Some((k, v)), Some(c)) = (l.split_once('='), cur.as_mut()) {
+                c.insert(k.trim().to_string(), v.trim().trim_matches('"').to_string());
+            }
+        }
+    }
+    if let Some(c) = cur.take() {
+        out.push(c);
+    }
+    out.into_iter().filter(|c| c.contains_key("interpolate")).collect()
 }
 
 fn train_stub(seed: u64, k: usize, dir: &str) -> String {
@@ -765,7 +807,37 @@ impl Underlying {
                     .expect("underlying model loads")
             })
             .collect();
-        Underlying { paths, models }
+        let mut und = Underlying { paths, models, bundled: vec![] };
+        for v in bundled_vehicles() {
+            let get = |k: &str| v.get(k).cloned().unwrap_or_default();
+            let unit = |k: &str| format!("\"{}\"", get(k));
+            let (Ok(su), Ok(gu), Ok(ru)) = (
+                serde_json::from_str::<SpeedUnit>(&unit("speed_unit")),
+                serde_json::from_str::<GradeUnit>(&unit("grade_unit")),
+                serde_json::from_str::<EnergyRateUnit>(&unit("energy_rate_unit")),
+            ) else {
+                continue;
+            };
+            let num = |k: &str| get(k).parse::<f64>();
+            let (Ok(s0), Ok(s1), Ok(g0), Ok(g1), Ok(sb), Ok(gb)) = (
+                num("speed_lower_bound"),
+                num("speed_upper_bound"),
+                num("grade_lower_bound"),
+                num("grade_upper_bound"),
+                get("speed_bins").parse::<usize>(),
+                get("grade_bins").parse::<usize>(),
+            ) else {
+                continue;
+            };
+            let path = format!("{}/{}", BUNDLED_DIR, get("model_input_file"));
+            let Ok(model) = SmartcoreSpeedGradeModel::new(&path, SpeedUnit::MilesPerHour, GradeUnit::Decimal, EnergyRateUnit::GallonsGasolinePerMile) else {
+                continue;
+            };
+            und.paths.push(path);
+            und.models.push(model);
+            und.bundled.push(SgSpec { model: und.paths.len() - 1, nested: None, su, gu, ru, s0, s1, sb, g0, g1, gb });
+        }
+        und
     }
     /// raw random-forest output at (s, g)
     fn rate(&self, m: usize, s: f64, g: f64) -> f64 {
@@ -821,21 +893,48 @@ fn sg_model_type(spec: &SgSpec) -> ModelType {
 
 fn case_sg(ctx: &mut Ctx, idx: usize, und: &Underlying, spec: &SgSpec, queries: &[Query]) {
     let path = und.paths[spec.model].clone();
-    // the underlying model as `new` will see it (same file, same units)
-    let nested_model = spec.nested.map(|(a, b, n, c, d, m)| {
-        InterpolationSpeedGradeModel::new(&path, ModelType::Smartcore, "u".to_string(), spec.su, (Speed::new(a), Speed::new(b)), n, spec.gu, (Grade::new(c), Grade::new(d)), m, spec.ru)
-            .expect("nested underlying model builds")
-    });
-    let rate = |s: f64, g: f64| -> f64 {
-        match &nested_model {
-            None => und.rate(spec.model, s, g),
-            Some(m) => m.predict((Speed::new(s), spec.su), (Grade::new(g), spec.gu)).expect("nested predicts").0.as_f64(),
-        }
-    };
-    // raw underlying rates at the grid points (grid by the real linspace)
+    // the underlying model as `new` will see it (same file, same units); raw underlying rates at the grid
+    // points (grid by the real linspace).  The nested underlying model is real code too: its failures are
+    // findings, not harness errors.
     let xs = if spec.sb == 0 { vec![] } else { linspace(spec.s0, spec.s1, spec.sb) };
     let ys = if spec.gb == 0 { vec![] } else { linspace(spec.g0, spec.g1, spec.gb) };
-    let u: Vec<Vec<f64>> = xs.iter().map(|s| ys.iter().map(|g| rate(*s, *g)).collect()).collect();
+    let table = catch_unwind(AssertUnwindSafe(|| -> Result<Vec<Vec<f64>>, String> {
+        let nested_model = match spec.nested {
+            None => None,
+            Some((a, b, n, c, d, m)) => Some(
+                InterpolationSpeedGradeModel::new(&path, ModelType::Smartcore, "u".to_string(), spec.su, (Speed::new(a), Speed::new(b)), n, spec.gu, (Grade::new(c), Grade::new(d)), m, spec.ru)
+                    .map_err(|e| format!("nested underlying model does not build: {}", e))?,
+            ),
+        };
+        let mut u = vec![];
+        for s in &xs {
+            let mut row = vec![];
+            for g in &ys {
+                row.push(match &nested_model {
+                    None => und.rate(spec.model, *s, *g),
+                    Some(m) => m
+                        .predict((Speed::new(*s), spec.su), (Grade::new(*g), spec.gu))
+                        .map_err(|e| format!("nested underlying model fails at ({}, {}): {}", s, g, e))?
+                        .0
+                        .as_f64(),
+                });
+            }
+            u.push(row);
+        }
+        Ok(u)
+    }));
+    let u: Vec<Vec<f64>> = match table {
+        Ok(Ok(u)) => u,
+        other => {
+            let msg = match other {
+                Ok(Err(e)) => e,
+                _ => "nested underlying interpolation model panicked".to_string(),
+            };
+            ctx.fail(idx, "speed_grade/predict_fails", format!("as underlying model of another interpolation model: {}", msg));
+            ctx.emit(idx, format!("sg-underlying-failed {} {}", spec.sb, spec.gb), "underlying failed".to_string());
+            return;
+        }
+    };
 
     let mut line = format!(
         "sg {} {} {} {} {} {} {} {} {} {}",
@@ -866,7 +965,7 @@ fn case_sg(ctx: &mut Ctx, idx: usize, und: &Underlying, spec: &SgSpec, queries: 
     }));
     ctx.count(if spec.nested.is_some() {
         "sg_underlying_interpolation"
-    } else if spec.model < MODELS.len() {
+    } else if spec.model < MODELS.len() || und.bundled.iter().any(|b| b.model == spec.model) {
         "sg_underlying_bundled_forest"
     } else {
         "sg_underlying_stub_forest"
@@ -1246,11 +1345,21 @@ pub fn run(ctx: &mut Ctx) -> &'static str {
         let pts = gen_points(&mut rng, &t, 3, ctx);
         case_interp(ctx, idx, &t, true, k % 6 == 5, 1, &pts);
     }
+    // ---- every bundled vehicle with its bundled interpolation configuration
+    for b in 0..und.bundled.len() {
+        let Some(idx) = ctx.begin() else { continue };
+        let mut rng = Rng::for_case(ctx.seed, 14, idx as u64);
+        let spec = und.bundled[b].clone();
+        let qs = gen_queries(&mut rng, &spec, ctx.n(6, 40));
+        case_sg(ctx, idx, &und, &spec, &qs);
+        ctx.count("sg_bundled_vehicle_configuration");
+    }
     // ---- speed/grade model
+    let n_generic = und.paths.len() - und.bundled.len();
     for k in 0..ctx.n(400, 10000) {
         let Some(idx) = ctx.begin() else { continue };
         let mut rng = Rng::for_case(ctx.seed, 14, idx as u64);
-        let spec = gen_sg(&mut rng, k % 50 == 49, und.paths.len());
+        let spec = gen_sg(&mut rng, k % 50 == 49, n_generic);
         let qs = gen_queries(&mut rng, &spec, 4);
         case_sg(ctx, idx, &und, &spec, &qs);
     }
